@@ -77,13 +77,14 @@ pub struct Gen {
     pub force_probe: bool,
 }
 
-const THRESHOLDS: [usize; 12] = [3, 7, 14, 28, 56, 112, 224, 448, 896, 1792, 3584, 7168];
+const THRESHOLDS: [usize; 17] = [3, 7, 14, 28, 56, 112, 224, 448, 896, 1792, 3584, 7168, 14336, 28672, 57344, 114688, 229376];
 
 impl Gen {
     pub fn new(seed: u64, slice: Slice, max_len: usize) -> Gen {
         let mut rng = Rng::new(seed);
         let ths: Vec<usize> = THRESHOLDS.iter().copied().filter(|t| *t <= max_len.max(3)).collect();
-        let base = *rng.pick(&ths);
+        // the churn slice is about large maps: aim at one of the three largest thresholds allowed
+        let base = if slice == Slice::Big && ths.len() > 3 { *rng.pick(&ths[ths.len() - 3..]) } else { *rng.pick(&ths) };
         let target = (base as i64 + rng.below(5) as i64 - 1).max(1) as usize;
         Gen { rng, slice, target, next_fresh: 0, step: 0, since_dump: 0, probes_left: if slice == Slice::Cap { 8 } else { 3 }, force_probe: false }
     }
@@ -99,6 +100,12 @@ impl Gen {
         let r = w.refs.get(mid)?.as_ref()?;
         if r.is_empty() {
             return None;
+        }
+        if r.len() > 4096 {
+            // O(log n): the first key at or after a random point of the key space
+            let hi = *r.keys().next_back().unwrap();
+            let at = self.rng.below(hi + 1);
+            return r.range(at..).next().map(|x| *x.0);
         }
         let i = self.rng.below(r.len() as u64) as usize;
         r.keys().nth(i).copied()
@@ -117,6 +124,13 @@ impl Gen {
             1 => Some(*self.rng.pick(&v)),
             // anywhere in the old table, typically far from the cursor
             _ => {
+                let l = m.verif_state().old.map_or(0, |o| o.0);
+                if l > 4096 {
+                    let lim = 17 + self.rng.below(4080) as usize;
+                    let mut last = v[0];
+                    m.verif_old_keys(lim, |k| last = k.k());
+                    return Some(last);
+                }
                 let all = old_keys(m);
                 Some(*self.rng.pick(&all))
             }
@@ -243,7 +257,8 @@ impl Gen {
             return (0, Op::New { cap: 0, seed: self.rng.below(1000) });
         }
         self.since_dump += 1;
-        if self.since_dump >= 40 {
+        let every = w.refs.get(0).and_then(|r| r.as_ref()).map_or(40, |r| if r.len() > 8000 { r.len() / 4 } else { 40 });
+        if self.since_dump >= every {
             self.since_dump = 0;
             return (0, Op::Dump);
         }
